@@ -373,6 +373,78 @@ def stream_buffer(ck):
                 ck.ob("C12.buffer-fifo", fi, x, idxv == want, "%s looks at the %s chunk only" % (fi.name, "newest (tail, for coalescing)" if want == -1 else "oldest (head)"))
     ck.floor("C12.buffer-fifo", n_ops, 5, "deque operations in _StreamBuffer")
 
+    # who owns _first_pos: it is an offset into the HEAD chunk and may only be applied to / reset for that chunk
+    n_pos = 0
+    for fi in ck.repo.direct_methods(IO, SB):
+        if fi.name == "__init__":
+            continue
+        aliases = {"self._buffers"}
+        for st in q.walk_body(fi.node):
+            if isinstance(st, ast.Assign) and q.dotted(st.value) == "self._buffers":
+                aliases |= q.assigned_paths(st)
+        pos_names = {"self._first_pos"}
+        for st in q.walk_body(fi.node):
+            if isinstance(st, (ast.Assign, ast.AnnAssign)) and q.dotted(getattr(st, "value", None)) == "self._first_pos":
+                pos_names |= {p_ for p_ in q.assigned_paths(st) if "." not in p_}
+        gfb = guard_facts(fi)
+
+        def chunk_index(name: str):
+            """index K when local ``name`` is (only) bound from <deque>[K] (tuple unpack or plain); None if unknown"""
+            ks = set()
+            for st in q.walk_body(fi.node):
+                if isinstance(st, ast.Assign) and name in {x.id for t_ in st.targets for x in ast.walk(t_) if isinstance(x, ast.Name)}:
+                    v = st.value
+                    if isinstance(v, ast.Subscript) and q.dotted(v.value) in aliases:
+                        try:
+                            ks.add(q.fold(v.slice, {}))
+                        except q.NotFoldable:
+                            return None
+                    elif isinstance(v, ast.Call) and q.receiver(v) in aliases and q.call_attr(v) == "popleft":
+                        ks.add(0)
+                    else:
+                        return None
+            return ks or None
+
+        def single_chunk(node) -> bool:
+            for t_, p_ in gfb[node.id]:
+                if t_.startswith("@") or not any(("len(%s)" % a_) in t_ for a_ in aliases):
+                    continue
+                try:
+                    vals = {k for k in range(0, 4) if bool(q.fold(ast.parse(t_, mode="eval").body, {a_: tuple(range(k)) for a_ in aliases})) == p_}
+                except q.NotFoldable:
+                    continue
+                if vals == {1}:
+                    return True
+            return False
+
+        def base_name(e):
+            while True:
+                if isinstance(e, ast.Call) and e.args and (q.dotted(e.func) in ("memoryview", "typing.cast", "cast", "bytes", "bytearray")):
+                    e = e.args[-1]
+                    continue
+                break
+            return e.id if isinstance(e, ast.Name) else None
+
+        for node, x in fi.cfg.find(lambda x: isinstance(x, ast.Subscript) and isinstance(x.slice, ast.Slice)):
+            bounds = [b_ for b_ in (x.slice.lower, x.slice.upper) if b_ is not None]
+            if not any(q.dotted(y) in pos_names for b_ in bounds for y in ast.walk(b_)):
+                continue
+            n_pos += 1
+            bn = base_name(x.value)
+            ks = chunk_index(bn) if bn else None
+            if ks is None:
+                raise AnalysisError("%s: cannot tell which chunk %s is sliced with the head offset" % (fi.qualname, q.unparse(x.value)))
+            ok = ks == {0} or (ks <= {0, -1} and single_chunk(node))
+            ck.ob("C12.buffer-pos", fi, x, ok, "_first_pos is the offset into the HEAD chunk: it is only applied to the chunk taken from index 0 (applied here to index %s; the last chunk is the head only when exactly one chunk is queued)" % sorted(ks))
+        if fi.name != "advance":
+            for node in fi.cfg.stmt_nodes(lambda n: n.kind == "stmt" and isinstance(n.ast, (ast.Assign, ast.AugAssign)) and "self._first_pos" in q.assigned_paths(n.ast)):
+                n_pos += 1
+                touched = {k for st in q.walk_body(fi.node) if isinstance(st, ast.Assign) and isinstance(st.value, ast.Subscript) and q.dotted(st.value.value) in aliases for k in [q.fold(st.value.slice, {}) if isinstance(st.value.slice, (ast.Constant, ast.UnaryOp)) else None]}
+                ok = single_chunk(node) or (touched and touched <= {0})
+                ck.ob("C12.buffer-pos", fi, node.ast, bool(ok), "_first_pos is changed only together with the head chunk (advance), never while working on another chunk")
+    if not any(v.rule == "C12.buffer-pos" for v in ck.violations):
+        ck.floor("C12.buffer-pos", n_pos, 1, "uses of the head offset")
+
     # units: len(buffer) is the number of buffered *bytes*
     ln = ck.func(IO, SB + ".__len__")
     lr = [x for x in q.walk_body(ln.node) if isinstance(x, ast.Return)]
@@ -721,6 +793,7 @@ MUTANTS = [
     ("coalescing into a memoryview chunk", _in(SB + ".append", replace_expr(lambda n: isinstance(n, ast.BoolOp) and isinstance(n.op, ast.Or) and "is_memview" in _src(n), lambda n: n.values[1])), "C12.buffer-kinds"),
     ("len(_StreamBuffer) counts chunks instead of bytes", _in(SB + ".__len__", replace_stmt(lambda st: isinstance(st, ast.Return), lambda st: [parse_stmt("return len(self._buffers)")])), "C12.buffer-size"),
     ("one-byte writes are dropped (elif size > 1)", _in(SB + ".append", replace_expr(lambda n: isinstance(n, ast.Compare) and _src(n) == "size > 0", lambda n: parse_expr("size > 1"))), "C12.buffer-size"),
+    ("seeded C12-adv4: append() compacts the LAST chunk with the head offset _first_pos", _in(SB + ".append", replace_stmt(lambda st: isinstance(st, ast.AugAssign) and _src(st) == "b += data", lambda st: ast.parse("if self._first_pos:\n    del b[:self._first_pos]\n    self._first_pos = 0").body + [st])), "C12.buffer-pos"),
     ("_size only updated for large chunks", _in(SB + ".append", _size_only_large), "C12.buffer-size"),
     ("advance accepts size 0 / beyond the buffer", _in(SB + ".advance", replace_expr(lambda n: isinstance(n, ast.Compare) and len(n.ops) == 2, lambda n: ast.Compare(left=n.left, ops=[ast.LtE()], comparators=[n.comparators[0]]))), "C12.buffer-size"),
     ("peek ignores the head position", _in(SB + ".peek", replace_stmt(lambda st: isinstance(st, ast.Assign) and _src(st.value) == "self._first_pos", lambda st: [parse_stmt("pos = 0")])), "C12.buffer-pos"),
